@@ -197,9 +197,9 @@ def unitsDisagree (ph : PH) (first : Nat) (ms : List Message) : Bool :=
   (ms.filter (·.num == ph.mesgNum)).any fun m =>
     decide ((lapStartTime ph m + u32 (fval m ph.totalTimerTime)) % 2 ^ 32 < ts) != decide (lapEndTime ph m < ts)
 
-/-- second finding of the concealer: when NO record is left revealed by the end stage (`last` reaches back to the
-first record), `updateEndPosition` runs with `recordIndex = -1`, whose timestamp reads as 0xFFFFFFFF: only the last
-lap/session is handled and every earlier one keeps all its positions. -/
+/-- the situation of finding KF-C20-2 (fixed by /repo commit bd79ab7): NO record is left revealed by the end stage
+(`last` reaches back to the first record). Before the fix `updateEndPosition` ran with `recordIndex = -1`, whose
+timestamp reads as 0xFFFFFFFF: only the last lap/session was handled and every earlier one kept all its positions. -/
 def allConcealedAtEnd (last : Nat) (ms : List Message) : Bool :=
   last != 0 && (lastRevealed last ms).isNone
 
